@@ -59,7 +59,8 @@ def _cell_type_list(tree, cls_name):
             for sub in node.body:
                 if isinstance(sub, ast.FunctionDef) and sub.name == "_cell_type":
                     for r in ast.walk(sub):
-                        if isinstance(r, ast.List) and r.elts and all(isinstance(e, ast.Attribute) for e in r.elts):
+                        if isinstance(r, (ast.List, ast.Tuple)) and r.elts \
+                                and all(isinstance(e, ast.Attribute) for e in r.elts):
                             return [_celltypes_attr(e) for e in r.elts]
     raise ValueError(f"_cell_type list of {cls_name} not found")
 
